@@ -39,13 +39,13 @@ theorem C09_unreal2_attempt (s : Sock) (kind : PacketKind) :
 
 /-- the log of a whole query satisfies `P` when opening the socket does and the body does -/
 theorem query_log_all (P : Ev → Prop) (port : Nat) (g : Gather) (r : Nat)
-    (hbody : ∀ s : Sock, QSafe s P (queryBody s g r)) (hopen : ∀ c tcp p rf, P (.opened c tcp p rf)) (w : Net) :
+    (hbody : ∀ s : Sock, s.tcp = false → QSafe s P (queryBody s g r)) (hopen : ∀ c tcp p rf, P (.opened c tcp p rf)) (w : Net) :
     ∃ added, (query port g r w).2.log = w.log ++ added ∧ ∀ e ∈ added, P e := by
   rw [query_eq, Q.bind_apply]
   have fin : ∀ (w0 : Net) (ev : Ev), w0.log = w.log ++ [ev] → P ev → IsOpen ⟨w.conns.length, port, false⟩ w0 →
       ∃ added, (queryBody ⟨w.conns.length, port, false⟩ g r w0).2.log = w.log ++ added ∧ ∀ e ∈ added, P e := by
     intro w0 ev hlog0 hev hop
-    obtain ⟨_, h2⟩ := hbody ⟨w.conns.length, port, false⟩ w0 hop
+    obtain ⟨_, h2⟩ := hbody ⟨w.conns.length, port, false⟩ rfl w0 hop
     obtain ⟨added, hlog, hall⟩ := h2.log
     refine ⟨ev :: added, by rw [hlog, hlog0]; simp, ?_⟩
     intro e he
@@ -82,7 +82,7 @@ theorem C09_unreal2_skip_sends_info_only (port : Nat) (retries : Nat) (script : 
       QSafe.bind (QSafe.pure _ _ _) fun _ => QSafe.bind (QSafe.pure _ _ _) fun _ => QSafe.pure _ _ _
     · intro failed c p data f h; cases h; rfl
     · intro got c p data f h; cases h
-  obtain ⟨added, hlog, hall⟩ := query_log_all P port ⟨.skip, .skip⟩ retries hinfo
+  obtain ⟨added, hlog, hall⟩ := query_log_all P port ⟨.skip, .skip⟩ retries (fun s _ => hinfo s)
     (fun _ _ _ _ c p data f h => by cases h) (Net.init script faults)
   intro e he
   rw [hlog] at he
